@@ -183,6 +183,24 @@ pub fn guard<T>(f: impl FnOnce() -> T) -> Result<T, PanicInfo> {
     })
 }
 
+/// Copy of `b` placed at an odd address (a decoder must not care how its input slice is aligned).
+pub struct Misaligned {
+    buf: Vec<u8>,
+    off: usize,
+    len: usize,
+}
+impl Misaligned {
+    pub fn new(b: &[u8]) -> Misaligned {
+        let mut buf = vec![0u8; b.len() + 2];
+        let off = if (buf.as_ptr() as usize) % 2 == 0 { 1 } else { 0 };
+        buf[off..off + b.len()].copy_from_slice(b);
+        Misaligned { buf, off, len: b.len() }
+    }
+    pub fn slice(&self) -> &[u8] {
+        &self.buf[self.off..self.off + self.len]
+    }
+}
+
 /// Evaluate `f` in a brand-new thread (fresh thread-local state, no call history). Used by the
 /// history-independence monitors: a pure function must give the same result whatever was called before it.
 pub fn fresh_thread<T: Send>(f: impl FnOnce() -> T + Send) -> Result<T, PanicInfo> {
